@@ -6,6 +6,7 @@ from itertools import islice, repeat, chain
 from typing import Union, Sequence, Mapping, Iterable, Any
 
 from coba.context import CobaContext
+from coba.utilities import peek_first
 from coba.primitives import Source, Sink, Filter, Environment, Interaction
 
 class ObjectsToZipMember(Sink[Iterable[Sequence[object]]]):
@@ -51,8 +52,10 @@ class EnvironmentsToObjects(Filter[Environment, Iterable]):
     def _env_to_objects(self,env):
         from coba import __version__ #imported here to avoid circular dependency
         yield {"version":2,"coba_version":__version__}
+        #some environments only know all of their params once they have been read (e.g., n_actions of supervised data)
+        _,interactions = peek_first(env.read())
         yield env.params
-        I = iter(env.read())
+        I = iter(interactions)
         batch = list(islice(I,1000))
         while batch:
             yield batch
